@@ -60,6 +60,9 @@ Next == ABuf \/ AParse \/ AMakeOwner \/ ANormalize \/ AAddBase \/ ARemoveBase \/
 InvOwnerIndependent == OwnerIndependent(st)
 InvDepsAlive == DepsAlive(st)
 InvAllStable == AllStable(st)
+\* C11 over histories: two URIs any sequence of operations can produce are equal exactly when they are the same text
+InvEqualIffSameText == \A a \in Slots, b \in Slots : (st.slot[a].held /\ st.slot[b].held) =>
+                          (Equal(st.slot[a].val, st.slot[b].val) <=> Recompose(st.slot[a].val) = Recompose(st.slot[b].val))
 \* scribbling changes no value, and only borrowers of that buffer stop being usable
 ScribbleLocal == [][ \A i \in Bufs : (st.buf[i].live /\ ~st'.buf[i].live) =>
                        \A s \in Slots : /\ st'.slot[s].val = st.slot[s].val /\ st'.slot[s].held = st.slot[s].held
